@@ -193,6 +193,15 @@ var WorldAtoms = []WorldAtom{
 		ss[1].Query = append(ss[1].Query, "uvs: [UV!]")
 		return ss
 	}, false},
+	{"union-under-object", func(ss []*SvcSpec) []*SvcSpec {
+		// a value type holding a list of a union of entities whose fields live at the other service
+		ensure(ss, 1, "N1", "Node")
+		ss[1].addType("N6", "Node", "tag: String")
+		ss[1].Extra = append(ss[1].Extra, "union UB = N1 | N6")
+		ss[1].addType("Box", "", "items: [UB]", "first: UB")
+		ss[1].Query = append(ss[1].Query, "box: Box")
+		return ss
+	}, false},
 	{"node-typed-field", func(ss []*SvcSpec) []*SvcSpec { ss[0].Query = append(ss[0].Query, "anyNode: Node"); return ss }, false},
 	{"entity-node-typed-field", func(ss []*SvcSpec) []*SvcSpec {
 		ss[1].Types["N1"] = append(ss[1].Types["N1"], "related: Node")
